@@ -2,9 +2,11 @@
  * transfer fewer bytes than asked (a legal behaviour of the system call: NFS,
  * FUSE, nearly full disks, signals).  The data that is written is genuine;
  * only the count is capped.  SHORTIO_SEED=<n> selects the sequence of caps
- * (1..64 bytes, now and then a full transfer). */
+ * (1..64 bytes, now and then a full transfer).  SHORTIO_FAIL=<n>: the n-th
+ * pwrite on a regular file fails with EIO instead (nothing is written). */
 #define _GNU_SOURCE
 #include <dlfcn.h>
+#include <errno.h>
 #include <stdlib.h>
 #include <sys/stat.h>
 #include <unistd.h>
@@ -30,9 +32,27 @@ cap(int fd, size_t n)
 	return c < n ? c : n;
 }
 
+static int
+must_fail(int fd)
+{
+	static int failat = -1, count;
+	if (failat < 0) {
+		const char *e = getenv("SHORTIO_FAIL");
+		failat = e ? atoi(e) : 0;
+	}
+	struct stat st;
+	if (failat <= 0 || fstat(fd, &st) != 0 || !S_ISREG(st.st_mode))
+		return 0;
+	return ++count == failat;
+}
+
 ssize_t
 pwrite(int fd, const void *buf, size_t n, off_t off)
 {
+	if (must_fail(fd)) {
+		errno = EIO;
+		return -1;
+	}
 	static ssize_t (*real)(int, const void *, size_t, off_t);
 	if (!real)
 		real = (ssize_t (*)(int, const void *, size_t, off_t)) dlsym(RTLD_NEXT, "pwrite");
@@ -42,6 +62,10 @@ pwrite(int fd, const void *buf, size_t n, off_t off)
 ssize_t
 pwrite64(int fd, const void *buf, size_t n, off_t off)
 {
+	if (must_fail(fd)) {
+		errno = EIO;
+		return -1;
+	}
 	static ssize_t (*real)(int, const void *, size_t, off_t);
 	if (!real)
 		real = (ssize_t (*)(int, const void *, size_t, off_t)) dlsym(RTLD_NEXT, "pwrite64");
